@@ -571,12 +571,16 @@ inductive RespErr where
   | unknownStatus | unexpectedByte | unexpectedStructure | headersAgain
   deriving DecidableEq, Repr
 
-/-- one handler callback -/
-def Resp.step (r : Resp) : Ev → Except RespErr Resp
+/-- one handler callback.  `fx = false` is the code as found (a status byte counts
+as the body-stream status only once a bytes part has been seen, `_body_started`);
+`fx = true` is the handler with the proposed fix for finding F15 (a status byte
+after the args is the stream status; a structure after a stream status is the
+error structure).  The harness probes which variant the working tree implements. -/
+def Resp.step (fx : Bool) (r : Resp) : Ev → Except RespErr Resp
   | .headers _ => .ok r
   | .byte b =>
     if b ≠ 69 ∧ b ≠ 83 then .error .unknownStatus
-    else if r.bodyStarted then
+    else if r.bodyStarted || (fx && r.args.isSome) then
       if r.streamStatus.isSome then .error .unexpectedByte
       else .ok { r with streamStatus := some b }
     else
@@ -584,7 +588,7 @@ def Resp.step (r : Resp) : Ev → Except RespErr Resp
       else .ok { r with status := some b }
   | .bytes b => .ok { r with bodyStarted := true, parts := r.parts ++ [b] }
   | .struct raw =>
-    if ¬ r.bodyStarted then
+    if !r.bodyStarted && !(fx && r.streamStatus.isSome) then
       if r.args.isSome then .error .unexpectedStructure
       else .ok { r with args := some raw }
     else
@@ -592,11 +596,11 @@ def Resp.step (r : Resp) : Ev → Except RespErr Resp
       else .ok { r with errArgs := some raw }
   | .end_ => .ok { r with ended := true }
 
-def Resp.run (r : Resp) : List Ev → Except RespErr Resp
+def Resp.run (fx : Bool) (r : Resp) : List Ev → Except RespErr Resp
   | [] => .ok r
-  | e :: es => match r.step e with
+  | e :: es => match r.step fx e with
     | .error x => .error x
-    | .ok r' => r'.run es
+    | .ok r' => r'.run fx es
 
 /-- a conventional response as `ProtocolThreeResponder.send_response` writes it:
 status byte, args, then either nothing, one body, or a stream of chunks
